@@ -40,6 +40,9 @@ class Ctx:
 def run_paths(f, klen, word_args=()):
     ex = irx.Exec(f, mode.Handler(klen), mode.havoc_state(klen // 32), word_args=word_args)
     ps = ex.run()
+    for p in ps:
+        if any(e[0] == "cond-data" for e in p.events):
+            raise Broken("%s branches on data bits: path summaries are not comparable with the reference (constant-time rule C07 decides such code)" % f.name)
     return ex, ps
 
 
